@@ -684,6 +684,11 @@ impl RootedThread {
                 .alloc_owned(Move(thread))
                 .expect("Not enough memory to allocate thread")
                 .unrooted();
+            #[cfg(gluon_verif)]
+            crate::verif::heap_alias(
+                ptr.global_state.gc.lock().unwrap().verif_heap_id(),
+                gc.verif_heap_id(),
+            );
             *ptr.global_state.gc.lock().unwrap() = gc;
 
             let mut parent_threads = global_state.generation_0_threads.write().unwrap();
@@ -961,6 +966,51 @@ impl Thread {
 
     pub fn interrupted(&self) -> bool {
         self.interrupt.load(atomic::Ordering::Relaxed)
+    }
+
+    /// Identity of this thread's heap
+    #[cfg(gluon_verif)]
+    pub fn verif_heap_id(&self) -> usize {
+        self.owned_context().gc.verif_heap_id()
+    }
+
+    /// Identity of the global heap of this thread's VM
+    #[cfg(gluon_verif)]
+    pub fn verif_global_heap_id(&self) -> usize {
+        self.global_state.gc.lock().unwrap().verif_heap_id()
+    }
+
+    /// `(frames, value stack length, allocated, memory limit, collect limit)`
+    #[cfg(gluon_verif)]
+    pub fn verif_stack_info(&self) -> (usize, usize, usize, usize, usize) {
+        let context = self.owned_context();
+        (
+            context.stack.get_frames().len(),
+            context.stack.len() as usize,
+            context.gc.allocated_memory(),
+            context.gc.verif_memory_limit(),
+            context.gc.verif_collect_limit(),
+        )
+    }
+
+    #[cfg(gluon_verif)]
+    pub fn verif_addr(&self) -> usize {
+        self as *const Thread as *const () as usize
+    }
+
+    /// Everything `Trace` reaches from the roots of this thread (the root enumeration is the one
+    /// the collector uses), without marking anything
+    #[cfg(gluon_verif)]
+    pub fn verif_walk(&self, include_globals: bool) -> crate::verif::Graph {
+        let context = self.owned_context();
+        let mut gc = Gc::verif_visitor(include_globals);
+        let ptr = unsafe { GcPtr::from_raw(self) };
+        Roots {
+            vm: &ptr,
+            stack: &context.stack,
+        }
+        .trace(&mut gc);
+        gc.verif_take_graph()
     }
 
     #[doc(hidden)]
@@ -2105,6 +2155,8 @@ impl<'b, 'gc> ExecuteContext<'b, 'gc> {
             let instr = unsafe { program_counter.instruction() };
             let instruction_index = program_counter.instruction_index;
             program_counter.step();
+            #[cfg(gluon_verif)]
+            crate::verif::note_slen(self.stack.stack().len() as usize);
 
             debug_instruction(&self.stack, instruction_index, instr);
 
@@ -2144,6 +2196,16 @@ impl<'b, 'gc> ExecuteContext<'b, 'gc> {
                     return self.do_call(args).map(Some).into();
                 }
                 TailCall(mut args) => {
+                    #[cfg(gluon_verif)]
+                    if crate::verif::events_on() {
+                        crate::verif::emit(format_args!(
+                            "\"ev\":\"tailcall\",\"args\":{},\"frames\":{},\"slen\":{},\"excess\":{}",
+                            args,
+                            self.stack.stack().get_frames().len(),
+                            self.stack.stack().len(),
+                            self.stack.frame().excess
+                        ));
+                    }
                     let mut amount = self.stack.len() - args;
                     if self.stack.frame().excess {
                         amount += 1;
@@ -2935,6 +2997,13 @@ pub fn reset_stack(mut stack: StackFrame<State>, level: usize) -> Result<crate::
             Err(_) => return Err(format!("Attempted to exit scope above current").into()),
         };
     }
+    #[cfg(gluon_verif)]
+    crate::verif::emit(format_args!(
+        "\"ev\":\"reset\",\"level\":{},\"frames\":{},\"slen\":{}",
+        level,
+        stack.stack().get_frames().len(),
+        stack.stack().len()
+    ));
     Ok(trace)
 }
 
